@@ -402,6 +402,10 @@ impl Vfs {
         // Over mount would invalidate previous superblock inodes.
         if let Some(mnt) = mountpoints.get(&inode) {
             superblocks[mnt.fs_idx as usize] = None;
+            // The evicted mount's slot becomes free: drop its per-mount id mapping too.
+            let mut mappings = self.mount_id_mappings.load().deref().deref().clone();
+            mappings[mnt.fs_idx as usize] = None;
+            self.mount_id_mappings.store(Arc::new(mappings));
         }
         superblocks[fs_idx as usize] = Some(Arc::new(fs));
         self.superblocks.store(Arc::new(superblocks));
@@ -453,7 +457,8 @@ impl Vfs {
         let index = self.allocate_fs_idx().map_err(VfsError::FsIndex)?;
         // Store per-mount id_mapping before insert_mount_locked so that
         // convert_entry during insertion can use it.
-        if id_mapping.is_some() {
+        {
+            // Always overwrite the slot: it may still hold the mapping of a previous occupant.
             let mut mappings = self.mount_id_mappings.load().deref().deref().clone();
             mappings[index as usize] = id_mapping;
             self.mount_id_mappings.store(Arc::new(mappings));
